@@ -50,16 +50,28 @@ type doc struct {
 	Tokens []string `json:"tokens"`
 }
 
+// bigField: a field whose distinct token values add up to exactly Total bytes (the token block
+// writer treats a field larger than consts.RegularBlockSize = 16 KiB specially: the pending block of
+// smaller fields is flushed first). The field's place in the sort order is given by its name.
+type bigField struct {
+	Name  string `json:"name"`
+	Total int    `json:"total_bytes"`
+}
+
 type corpus struct {
-	Docs  []doc `json:"-"`
-	Bulks []int `json:"bulks"` // documents per bulk
-	Skip  bool  `json:"skip_sort_docs"`
-	N     int   `json:"ndocs"`
+	Bigs  []bigField `json:"big_fields,omitempty"`
+	Docs  []doc      `json:"-"`
+	Bulks []int      `json:"bulks"` // documents per bulk
+	Skip  bool       `json:"skip_sort_docs"`
+	N     int        `json:"ndocs"`
 }
 
 func (c *corpus) summary() map[string]any {
 	m := map[string]any{"ndocs": len(c.Docs), "bulks": c.Bulks, "skip_sort_docs": c.Skip}
-	if len(c.Docs) <= 12 {
+	if len(c.Bigs) > 0 {
+		m["big_fields"] = c.Bigs
+	}
+	if len(c.Docs) <= 12 && len(c.Bigs) == 0 {
 		m["docs"] = c.Docs
 	}
 	return m
@@ -67,8 +79,8 @@ func (c *corpus) summary() map[string]any {
 
 const letters = "abcdefghijklmnopqrstuvwxyz0123456789 "
 
-func genCorpus(r *rng.R, n int, skip bool) *corpus {
-	c := &corpus{Skip: skip, N: n}
+func genCorpus(r *rng.R, n int, skip bool, bigs ...bigField) *corpus {
+	c := &corpus{Skip: skip, N: n, Bigs: bigs}
 	seen := map[[2]uint64]bool{}
 	nvals := r.Range(1, 5)
 	for len(c.Docs) < n {
@@ -97,6 +109,31 @@ func genCorpus(r *rng.R, n int, skip bool) *corpus {
 			d.Tokens = append(d.Tokens, fmt.Sprintf("t:u%d", r.Intn(2)))
 		}
 		c.Docs = append(c.Docs, d)
+	}
+	for _, b := range bigs {
+		// distinct values "<6 digits>xxxx…": 50 bytes each, the last one takes the remainder
+		var vals []string
+		left := b.Total
+		for i := 0; left > 0; i++ {
+			l := 50
+			if left < 100 {
+				l = left
+			}
+			if l < 6 {
+				l = 6 // cannot happen for the totals used (>= 100)
+			}
+			v := fmt.Sprintf("%06d", i) + strings.Repeat("x", l-6)
+			vals = append(vals, v)
+			left -= l
+		}
+		per := (len(vals) + n - 1) / n
+		if per < 8 {
+			per = 8
+		}
+		for i, v := range vals {
+			di := (i / per) % n
+			c.Docs[di].Tokens = append(c.Docs[di].Tokens, b.Name+":"+v)
+		}
 	}
 	left := n
 	for left > 0 {
@@ -985,12 +1022,13 @@ func opStrings(ops []mop) []string {
 
 // faultWS is an in-memory io.WriteSeeker whose k-th Write stores only n bytes and fails.
 type faultWS struct {
-	buf    []byte
-	pos    int64
-	calls  int
-	k      int
-	n      int64
-	writes []iwrite
+	buf     []byte
+	pos     int64
+	calls   int
+	k       int
+	n       int64
+	persist bool // every write from the k-th on fails (otherwise only the k-th: a transient fault)
+	writes  []iwrite
 }
 
 var errInjected = errors.New("injected write error")
@@ -1029,6 +1067,9 @@ func (f *faultWS) Write(p []byte) (int, error) {
 		f.put(p[:n])
 		return int(n), errInjected
 	}
+	if f.persist && f.k > 0 && f.calls > f.k {
+		return 0, errInjected
+	}
 	f.put(p)
 	return len(p), nil
 }
@@ -1056,8 +1097,8 @@ func (d *driver) faults(r *rng.R, ci int, c *corpus) {
 	a := fm.VerifC08Active()
 	params := fm.VerifC08SealParams()
 	in := map[string]any{"seed": d.seed, "tier": d.tier, "corpus_index": ci, "corpus": c.summary()}
-	runOne := func(k int, n int64) (ws *faultWS, err error, panicked any) {
-		ws = &faultWS{k: k, n: n}
+	runOne := func(k int, n int64, persist bool) (ws *faultWS, err error, panicked any) {
+		ws = &faultWS{k: k, n: n, persist: persist}
 		defer func() {
 			if p := recover(); p != nil {
 				panicked = p
@@ -1067,7 +1108,7 @@ func (d *driver) faults(r *rng.R, ci int, c *corpus) {
 		err = frac.VerifC08WriteSealed(a, ws, params, 1_700_000_000_000)
 		return
 	}
-	ws0, err0, pan := runOne(0, 0)
+	ws0, err0, pan := runOne(0, 0, false)
 	if pan != nil || err0 != nil {
 		d.w.Violate("write-sealed-failed", fmt.Sprintf("writeSealedFraction without a fault failed: err=%v panic=%v", err0, pan), in)
 		return
@@ -1100,35 +1141,38 @@ func (d *driver) faults(r *rng.R, ci int, c *corpus) {
 	for k := 1; k <= total+1; k++ {
 		ks = append(ks, k)
 	}
-	if total > 60 && d.tier == "quick" {
-		// large index: every write of the IDs/LIDs/registry/header part, a sample of the rest
+	if total > 400 {
+		// huge index: a sample (never reached by the corpora of either tier; a safety valve)
 		ks = ks[:0]
 		for k := 1; k <= total+1; k++ {
-			s := secOf(k)
-			if s == "KTokens" && !r.Chance(1, 6) {
-				continue
+			if k > total-40 || r.Chance(400, total) {
+				ks = append(ks, k)
 			}
-			ks = append(ks, k)
 		}
 	}
+	// Fault modes: transient = ONLY write k fails, every later write succeeds (a swallowed error is
+	// then invisible to the code unless it is propagated at once); persistent = write k and every
+	// later one fail. The failing write stores nothing, or a part (possibly all) of its bytes.
 	type kn struct {
-		k int
-		n int64
+		k       int
+		n       int64
+		persist bool
 	}
 	var kns []kn
 	for _, k := range ks {
-		kns = append(kns, kn{k, 0})
+		kns = append(kns, kn{k, 0, false})
 		if k <= total {
-			// the failing write stores a part (possibly all) of its bytes before it reports the error
 			l := ws0.writes[min(k, len(ws0.writes))-1].Len
-			kns = append(kns, kn{k, int64(1 + r.Intn(int(l)))})
+			kns = append(kns, kn{k, int64(1 + r.Intn(int(l))), false})
+			kns = append(kns, kn{k, 0, true})
 		}
 	}
 	for _, x := range kns {
 		k, n := x.k, x.n
-		ws, err, pan := runOne(k, n)
+		ws, err, pan := runOne(k, n, x.persist)
 		fin := copyMap(in)
 		fin["failing_write_k"] = k
+		fin["fault_mode"] = map[bool]string{false: "transient: only write k fails", true: "persistent: write k and all later writes fail"}[x.persist]
 		fin["bytes_written_by_failing_write"] = n
 		fin["section"] = secOf(k)
 		fin["total_index_writes"] = total
@@ -1141,7 +1185,7 @@ func (d *driver) faults(r *rng.R, ci int, c *corpus) {
 			wl[i] = fmt.Sprintf("(%d, %d)%%N", x.Off, x.Len)
 		}
 		d.w.Add(fmt.Sprintf("CFault %s %d %d%%N %s [%s]", p.coq(), k, n, casefile.Bool(err != nil), strings.Join(wl, "; ")),
-			"fault/"+secOf(k), k <= total, fin, map[string]any{"error": fmt.Sprint(err), "writes_done": len(ws.writes)})
+			map[bool]string{false: "fault/", true: "fault-persistent/"}[x.persist]+secOf(k), k <= total, fin, map[string]any{"error": fmt.Sprint(err), "writes_done": len(ws.writes)})
 	}
 }
 
@@ -1270,31 +1314,72 @@ func main() {
 	r := rng.New(*seed)
 
 	type cfg struct {
-		n    int
-		skip bool
+		n         int
+		skip      bool
+		bigs      []bigField
+		faultOnly bool
 	}
 	var cfgs []cfg
 	nl, faultOnlyFrom := 4, 2000
 	if *tier == "quick" {
-		cfgs = []cfg{{r.Range(1, 3), false}, {r.Range(1, 3), true}, {r.Range(4, 30), false}, {r.Range(4, 30), true},
-			{r.Range(4, 60), false}, {r.Range(4, 60), true}, {r.Range(60, 300), false}, {r.Range(60, 300), true},
-			{r.Range(4200, 4600), r.Bool()}}
+		cfgs = []cfg{{n: r.Range(1, 3), skip: false}, {n: r.Range(1, 3), skip: true}, {n: r.Range(4, 30), skip: false}, {n: r.Range(4, 30), skip: true},
+			{n: r.Range(4, 60), skip: false}, {n: r.Range(4, 60), skip: true}, {n: r.Range(60, 300), skip: false}, {n: r.Range(60, 300), skip: true},
+			{n: r.Range(4200, 4600), skip: r.Bool()}}
 		nl = 5
 	} else {
 		d.maxQ = 8
 		nl = 10
 		faultOnlyFrom = 1 << 30
 		for i := 0; i < 24; i++ {
-			cfgs = append(cfgs, cfg{r.Range(1, 60), i%2 == 1})
+			cfgs = append(cfgs, cfg{n: r.Range(1, 60), skip: i%2 == 1})
 		}
-		cfgs = append(cfgs, cfg{r.Range(300, 1500), false}, cfg{r.Range(300, 1500), true},
-			cfg{r.Range(4200, 6000), false}, cfg{r.Range(4200, 9000), true})
+		cfgs = append(cfgs, cfg{n: r.Range(300, 1500), skip: false}, cfg{n: r.Range(300, 1500), skip: true},
+			cfg{n: r.Range(4200, 6000), skip: false}, cfg{n: r.Range(4200, 9000), skip: true})
+	}
+	// Fields whose tokens exceed consts.RegularBlockSize (16384 bytes): first / middle / last in the
+	// sort order of the fields ("B" < "_all_" < "a" < "k" < "m" < "s" < "t" < "y" < "z"), several of
+	// them, consecutive ones, and totals at the threshold (16384 is not "larger", 16385 is).
+	const thr = 16 * 1024
+	bigSets := [][]bigField{
+		{{"z", thr + 1 + r.Intn(8000)}},
+		{{"z", thr}}, {{"z", thr + 1}}, {{"m", thr + 1}},
+		{{"B", thr + 2000 + r.Intn(4000)}},
+		{{"a", thr + 1 + r.Intn(3000)}},
+		{{"m", 2*thr + r.Intn(3*thr)}, {"z", thr + 1 + r.Intn(1000)}},
+		{{"B", thr + 1 + r.Intn(1000)}, {"z", thr + 1 + r.Intn(1000)}},
+		{{"y", thr + 1 + r.Intn(5000)}, {"z", thr + 1 + r.Intn(5000)}},
+	}
+	if *tier != "quick" {
+		for i := 0; i < 10; i++ {
+			var bs []bigField
+			for _, name := range []string{"B", "a", "m", "y", "z"} {
+				if r.Chance(2, 5) {
+					tot := thr - 2 + r.Intn(5)
+					if r.Bool() {
+						tot = thr + 1 + r.Intn(4*thr)
+					}
+					bs = append(bs, bigField{name, tot})
+				}
+			}
+			if len(bs) == 0 {
+				bs = []bigField{{"z", thr + 1 + r.Intn(100)}}
+			}
+			bigSets = append(bigSets, bs)
+		}
+	}
+	for i, bs := range bigSets {
+		// the first set also goes through the traced seal / crash states / restarts; the others through
+		// the write-fault sweep only
+		cfgs = append(cfgs, cfg{n: r.Range(10, 60), skip: r.Bool(), bigs: bs, faultOnly: i > 0 && (*tier == "quick" || i%4 != 0)})
 	}
 	for ci, cf := range cfgs {
 		cr := r.Fork()
-		c := genCorpus(cr, cf.n, cf.skip)
+		c := genCorpus(cr, cf.n, cf.skip, cf.bigs...)
 		w.Count(fmt.Sprintf("corpus:skip=%v", cf.skip))
-		big := cf.n >= faultOnlyFrom
+		if len(cf.bigs) > 0 {
+			w.Count("corpus:with-field-over-16KiB")
+		}
+		big := cf.n >= faultOnlyFrom || cf.faultOnly
 		if !big {
 			d.exploreSeal(cr.Fork(), ci, c, d.newDir(), true, 0, nil)
 		}
